@@ -28,7 +28,8 @@ RULE = ("histories per simulation kind (single-cycle, five-stage with generated 
         "jump; distinct = hash(history)"
         ' Between earlier loads every inspection function is called; after the final load every inspection result is co'
         'mpared with the fresh simulation. Mid-run kind: load, k steps, load (any text), then run() vs stepping on twin'
-        's replaying the same history.')
+        's replaying the same history. Rejected VARIANTS of the final program (same labels / variables, failing late) are loaded before it, '
+        'and a deterministic family checks that names declared by a rejected text are neither known to nor clash with the next load.')
 ASSUMPTIONS = [
     "programs are loaded only while the simulation has not started (the property's precondition)",
     "wall-clock fields of the metrics are excluded from snapshots",
@@ -268,6 +269,41 @@ EMPTY = ["", "\n\n", "# nothing", "lbl:\n", ".text\n", ".data\nv: .word 3\n.text
 BROKEN_TOY = ["FOO", "LDA", "LDA nowhere", "lbl:\nlbl:\nNOP", ".data\nv: .word 1\nv: .word 2\n", ".data\nNOP", "v: .word 3", ".data\nv: .word 9, 8\n.text\nINC\nSTO v\nBOGUS"]
 
 
+RV_FAIL_TAILS = ["beq x0, x0, undeclared_label_q", "jal x0, undeclared_label_q", "bogus_mnemonic x1, x2", "addi x1, x0", "la x1, undeclared_variable_q",
+                 "extra_label_q:\nnop\nbne x1, x2, undeclared_label_q", "lw x1, undeclared_variable_q"]
+TOY_FAIL_TAILS = ["BRZ undeclared_label_q", "BOGUS", "LDA undeclared_variable_q", "extra_label_q:\nINC\nBRZ undeclared_label_q", "ADD"]
+
+
+def leak_cases():
+    """Deterministic family: what a REJECTED text declared (labels, variables) must not be known to the next load, and must
+    not clash with the next load's own declarations - per simulation kind, with the failing line early or late."""
+    rv = [
+        # (rejected earlier text, final text, final is well-formed)
+        ("a:\nnop\nbeq x0, x0, zz\n", "a:\nnop\nbeq x0, x0, a\n", True),
+        ("a:\nnop\nbogus\n", "a:\nnop\n", True),
+        ("a:\nnop\nb:\nnop\njal x0, zz\n", "nop\nb:\nbeq x0, x0, b\n", True),
+        ("a:\nnop\nbeq x0, x0, zz\n", "nop\nbeq x0, x0, a\n", False),
+        ("a:\nnop\naddi x1, x0\n", "jal x0, a\n", False),
+        (".data\nv: .word 1\n.text\nla x1, v\nbogus\n", ".data\nv: .word 2, 3\n.text\nla x1, v[1]\n", True),
+        (".data\nv: .word 1\n.text\nla x1, v\nbeq x0, x0, zz\n", "la x1, v\n", False),
+        (".data\nv: .word 1\n.text\nla x1, w\n", ".data\nw: .word 7\nv: .half 1\n.text\nlh x2, v\n", True),
+        ("a:\nnop\nbeq x0, x0, zz\n", "zz:\nbeq x0, x0, zz\nnop\n", True),
+    ]
+    toy = [
+        ("a:\nINC\nBRZ zz\n", "a:\nINC\nBRZ a\n", True),
+        ("a:\nINC\nBOGUS\n", "INC\na:\nDEC\n", True),
+        ("a:\nINC\nBRZ zz\n", "INC\nBRZ a\n", False),
+        (".data\nv: .word 1\n.text\nLDA v\nBOGUS\n", ".data\nv: .word 2\n.text\nLDA v\n", True),
+        (".data\nv: .word 1\n.text\nLDA v\nBRZ zz\n", "LDA v\n", False),
+        (".data\nv: .word 1\n.text\nLDA w\n", ".data\nw: .word 7\nv: .word 1\n.text\nADD v\n", True),
+    ]
+    for kind, rows in (("single", rv), ("five", rv), ("toy", toy)):
+        for bad, final, ok in rows:
+            for loads in ([bad], [bad, bad], [final, bad], [bad, ""]):
+                yield {"sim": {"kind": kind, "dcache": None, "icache": None} if kind != "toy" else {"kind": "toy"}, "loads": loads, "probe": [True, False],
+                       "final": final, "final_valid": ok, "bound": 40, "after": ["step", "run"]}
+
+
 def rv_program_text():
     from vf.gen import asmgen
     from vf.ref import asm
@@ -296,6 +332,14 @@ def case_strategy(draw):
     loads = draw(st.lists(anytext, max_size=4))
     valid = draw(st.integers(0, 4)) < 3
     final = draw(good) if valid else draw(st.one_of(st.sampled_from(EMPTY), st.sampled_from(broken)))
+    if valid and draw(st.integers(0, 2)) == 0:
+        # a REJECTED VARIANT of the final program is loaded first: the same labels / variables are declared, but the text
+        # fails late (undeclared label or variable, unknown mnemonic, malformed operand behind the last line) - whatever
+        # the assembler collected from the rejected text must not take part in the next load
+        tail = draw(st.sampled_from(TOY_FAIL_TAILS if kind == "toy" else RV_FAIL_TAILS))
+        loads = loads + [final.rstrip("\n") + "\n" + tail + "\n"]
+        if draw(st.booleans()):
+            loads.append(draw(st.sampled_from(EMPTY + broken)))
     if draw(st.integers(0, 3)) == 0:
         # the very same text is loaded again later: P ... (failing / other loads) ... P
         loads = [final] + draw(st.lists(st.one_of(st.sampled_from(broken), st.sampled_from(broken), st.sampled_from(EMPTY), good), min_size=1, max_size=3))
@@ -333,9 +377,12 @@ def corpus():
 
 def shards(tier, seed):
     n, k = (250, 4) if tier == "quick" else (1500, 16)
-    return [{"n": n, "seed": seed * 1000 + i} for i in range(k)] + [{"what": "midrun", "n": n // 2, "seed": seed * 1000 + 500 + i} for i in range(max(1, k // 4))]
+    return ([{"n": n, "seed": seed * 1000 + i} for i in range(k)] + [{"what": "midrun", "n": n // 2, "seed": seed * 1000 + 500 + i} for i in range(max(1, k // 4))]
+            + [{"what": "leak"}])
 
 
 def run_shard(item, stats):
+    if item.get("what") == "leak":
+        return core.run_cases(leak_cases(), check, stats, core.known_matcher(ID, globals().get("known_match")))
     strat = midrun_case() if item.get("what") == "midrun" else case_strategy()
     core.hyp_search(strat, check, stats, item["n"], item["seed"], core.known_matcher(ID, globals().get("known_match")))
